@@ -135,9 +135,9 @@ typedef struct _DEX
   YR_OBJECT* object;
 } DEX;
 
-#define fits_in_dex(dex, pointer, size)                                    \
-  ((size_t) size <= dex->data_size && (uint8_t*) (pointer) >= dex->data && \
-   (uint8_t*) (pointer) <= dex->data + dex->data_size - size)
+#define fits_in_dex(dex, pointer, size)                                      \
+  ((size_t) (size) <= dex->data_size && (uint8_t*) (pointer) >= dex->data && \
+   (uint8_t*) (pointer) <= dex->data + dex->data_size - (size))
 
 #define struct_fits_in_dex(dex, pointer, struct_type) \
   fits_in_dex(dex, pointer, sizeof(struct_type))
